@@ -1,7 +1,17 @@
 (* CorrC17.v — observational form of C17 used by the correspondence check. *)
-From SV Require Import Base View.
+From SV Require Import Base Json View.
+Require SV.Export.
 
+(* The job -> path map.  The selected jobs' state points, the path specification and the tables of the
+   library functions str()/format()/repr() are the input; the paths are computed IN COQ with the model of
+   signac.import_export._make_path_function that the export property owns (SV.Export.path_function, exclusion of
+   the keys named in the spec by exact membership).  Only where that model is out of its domain (a brace in a
+   value or literal, a mapping as index key) the value reported by the real function is used ([k_call] as
+   emitted); the harness counts these cases. *)
 Record case_C17 := {
+  k_xjobs : list SV.Export.job;     (* selected jobs in iteration order: (abbreviated) id and state point *)
+  k_xoracle : SV.Export.oracle;     (* repr(float), str(tuple), format(list, '') tables                  *)
+  k_spec : option SV.Export.pathspec;  (* None: the argument is not None / False / a string -> ValueError *)
   k_pre : node;                     (* the world before the call                                   *)
   k_call : call;                    (* prefix, cwd, selected jobs, path-function oracle             *)
   k_hint : list path;               (* order of the attempted unlink/rmdir/symlink calls (tie-break) *)
@@ -16,6 +26,45 @@ Record case_C17 := {
   k_res3 : option exn;
   k_post3 : node
 }.
+
+Definition has_job_key (sp : json) : bool :=
+  match sp with JObj kvs => existsb (fun kv => str_eqb (fst kv) s_job) kvs | _ => false end.
+Definition is_skey (s : SV.Export.seg) : bool := match s with SV.Export.SKey _ => true | _ => false end.
+
+(* None = outside the domain of the path-function model *)
+Definition derive_pf (k : case_C17) : option (option exn * list (result str)) :=
+  match k_spec k with
+  | None => Some (Some EValueError, [])
+  | Some p =>
+      (* path.format(job=job, **statepoint) with a state point key 'job': TypeError, retried without the
+         state point, so every plain {key} field raises KeyError -> _SchemaPathEvaluationError *)
+      if match p with SV.Export.PFmt segs => existsb is_skey segs | _ => false end
+         && existsb (fun j => has_job_key (SV.Export.j_sp j)) (k_xjobs k)
+      then Some (Some ERuntimeError, [])
+      else match SV.Export.path_function (k_xoracle k) (k_xjobs k) p with
+           | SV.Export.ROk ds => Some (None, map (fun d => Ok d) ds)
+           | SV.Export.RExn e => Some (Some e, [])
+           | SV.Export.ROod => None
+           end
+  end.
+
+Fixpoint set_pfs (js : list job) (pfs : list (result str)) : list job :=
+  match js with
+  | [] => []
+  | j :: js' =>
+      {| j_dir := j_dir j; j_items := j_items j;
+         j_pf := match pfs with r :: _ => r | [] => Err EOther end |}
+      :: set_pfs js' (match pfs with _ :: t => t | [] => [] end)
+  end.
+
+Definition fill_call (k : case_C17) : call :=
+  let c := k_call k in
+  match derive_pf k with
+  | None => c
+  | Some (pm, pfs) =>
+      {| c_cwd := c_cwd c; c_prefix := c_prefix c; c_jobs := set_pfs (c_jobs c) pfs;
+         c_pfmake := pm; c_all := c_all c |}
+  end.
 
 Definition res_exn {A} (r : result A) : option exn := match r with Ok _ => None | Err e => Some e end.
 Definition oexn_eqb (a b : option exn) : bool :=
@@ -34,9 +83,9 @@ Definition with_prefix (c : call) (p : path) : call :=
 
 (* ---------------------------------------------------------------- model vs implementation *)
 Definition mismatch_C17 (k : case_C17) : bool :=
-  let '(r1, (w1, _)) := create_linked_view (k_hint k) (k_pre k, 0%N) (k_call k) in
-  let '(r2, (w2, n2)) := create_linked_view (k_hint2 k) (k_post k, 0%N) (k_call k) in
-  let '(r3, (w3, _)) := create_linked_view (k_hint3 k) (k_post2 k, 0%N) (with_prefix (k_call k) (k_sprefix k)) in
+  let '(r1, (w1, _)) := create_linked_view (k_hint k) (k_pre k, 0%N) (fill_call k) in
+  let '(r2, (w2, n2)) := create_linked_view (k_hint2 k) (k_post k, 0%N) (fill_call k) in
+  let '(r3, (w3, _)) := create_linked_view (k_hint3 k) (k_post2 k, 0%N) (with_prefix (fill_call k) (k_sprefix k)) in
   negb (res_eqb r1 (k_res k) && node_eqb w1 (k_post k)
         && oexn_eqb (res_exn r2) (k_res2 k) && node_eqb w2 (k_post2 k)
         && Bool.eqb (N.eqb n2 0) (N.eqb (k_ops2 k) 0)
@@ -177,7 +226,7 @@ Definition holds_core (pre : node) (c : call) (sprefix : path) (accepted : bool)
 Definition is_ok {A} (r : result A) : bool := match r with Ok _ => true | Err _ => false end.
 
 Definition holds_C17 (k : case_C17) : bool :=
-  holds_core (k_pre k) (k_call k) (k_sprefix k) (is_ok (k_res k)) (k_post k)
+  holds_core (k_pre k) (fill_call k) (k_sprefix k) (is_ok (k_res k)) (k_post k)
              (k_res2 k) (N.eqb (k_ops2 k) 0) (k_post2 k) (k_res3 k) (k_post3 k).
 
 Definition violation_C17 (k : case_C17) : bool := negb (holds_C17 k).
@@ -199,7 +248,7 @@ Fixpoint has_job_dir (n : node) : bool :=
 
 (* open finding only: 5 = the leaf name used as a token *)
 Definition classify_C17 (k : case_C17) : N :=
-  let c := k_call k in
+  let c := fill_call k in
   let vp := vprefix c (c_prefix c) in
   match make_links c with
   | Err _ => 0
